@@ -61,11 +61,12 @@ class Crash:
             if m:
                 kind = "asan-" + m.group(1)
         frame = "?"
-        for fm in re.finditer(r"#\d+ 0x[0-9a-f]+ in (\S+) (/repo/[\w./-]+?):(\d+)", s):
+        repo = re.escape(vbuild.REPO.rstrip("/"))
+        for fm in re.finditer(r"#\d+ 0x[0-9a-f]+ in (\S+) (" + repo + r"/[\w./-]+?):(\d+)", s):
             frame = "%s" % (fm.group(1))
             break
         if frame == "?":
-            m = re.search(r"(/repo/[\w./-]+):(\d+):\d+: runtime error", s)
+            m = re.search(r"(" + repo + r"/[\w./-]+):(\d+):\d+: runtime error", s)
             if m:
                 frame = os.path.basename(m.group(1))
         return kind, frame
